@@ -711,8 +711,8 @@ func genCase(t *rapid.T) Case {
 }
 
 var historyFacet = harness.Register(&harness.Facet[Case]{
-	Name: "history",
-	Rule: "rapid: 3-4 objects (object literals with data members and get/set accessors, Object.create(p|null|Object.prototype, descriptors), constructor instances) linked by prototype chains, then a history of 1..25 (quick) / 1..40 (thorough) steps over names {a,b,c,x} (order-sensitive) and {0,1,10} (contents only): assignment, compound assignment, delete, Object.defineProperty with an arbitrary partial descriptor (each of value/writable/enumerable/configurable/get/set independently present or absent, contradictory mixes, get/set explicitly undefined or non-callable, non-boolean flags, fields inherited by the descriptor object, non-object descriptors), defineProperties, freeze, seal, preventExtensions, for-in whose body deletes/assigns properties when it meets given keys; getters/setters come from a family of 8 logging functions (constant, this[name] read/write, hidden slot, throwing). After EVERY step all observations (o[n], own descriptor, in, hasOwnProperty, propertyIsEnumerable for every object x name; keys, getOwnPropertyNames, for-in sequence, isFrozen/isSealed/isExtensible, getPrototypeOf per object; result/TypeError of the step; invocation log) are compared with the ES5.1 8.12/8.10/15.2.3/12.6.4 model and the history invariants are asserted on otto's own observations. non-trivial = the history contains a defineProperty/defineProperties on an EXISTING property with a partial descriptor, or an operation on a non-extensible object, or an assignment decided by an inherited accessor or inherited read-only property; distinct by the JSON of the whole case (objects + operation sequence)",
+	Name:  "history",
+	Rule:  "rapid: 3-4 objects (object literals with data members and get/set accessors, Object.create(p|null|Object.prototype, descriptors), constructor instances) linked by prototype chains, then a history of 1..25 (quick) / 1..40 (thorough) steps over names {a,b,c,x} (order-sensitive) and {0,1,10} (contents only): assignment, compound assignment, delete, Object.defineProperty with an arbitrary partial descriptor (each of value/writable/enumerable/configurable/get/set independently present or absent, contradictory mixes, get/set explicitly undefined or non-callable, non-boolean flags, fields inherited by the descriptor object, non-object descriptors), defineProperties, freeze, seal, preventExtensions, for-in whose body deletes/assigns properties when it meets given keys; getters/setters come from a family of 8 logging functions (constant, this[name] read/write, hidden slot, throwing). After EVERY step all observations (o[n], own descriptor, in, hasOwnProperty, propertyIsEnumerable for every object x name; keys, getOwnPropertyNames, for-in sequence, isFrozen/isSealed/isExtensible, getPrototypeOf per object; result/TypeError of the step; invocation log) are compared with the ES5.1 8.12/8.10/15.2.3/12.6.4 model and the history invariants are asserted on otto's own observations. non-trivial = the history contains a defineProperty/defineProperties on an EXISTING property with a partial descriptor, or an operation on a non-extensible object, or an assignment decided by an inherited accessor or inherited read-only property; distinct by the JSON of the whole case (objects + operation sequence)",
 	Quick: 1500, Thorough: 5000,
 	Gen:   genCase,
 	Check: checkCase,
